@@ -51,6 +51,9 @@ def parse (toks : List String) : Option Op :=
     let r : SideChain := { addr := ← addr? a, chainId := ← nat? id, router := ← nat? router, name := ← Hex.ofHex name, btw := ← nat? btw,
                            ccmc := ← Hex.ofHex ccmc, extra := ← Hex.ofHex extra }
     if k == "screg" then pure (.screg (← signers? sg) r) else if k == "scupd" then pure (.scupd (← signers? sg) r) else none
+  | ["admit", sg] => do pure (.admit (← signers? sg))
+  | ["refresh", o] => if o == "-" then some (.refresh none) else do pure (.refresh (some (← addr? o)))
+  | ["restart"] => some .restart
   | ["sig", sg, a, cid, subject, sig, _] => do
     let _ ← nat? cid
     pure (.sig (← signers? sg) (← addr? a) (← Hex.ofHex subject) (← Hex.ofHex sig))
@@ -134,6 +137,7 @@ def dump (s : State) : String :=
     ++ ";svaid=" ++ optNat s.svApplyId ++ ";svrid=" ++ optNat s.svRemoveId
     ++ ";sig=" ++ mapByHex s.sigs (fun p => bool p.1 ++ ":" ++ joinWith "," (sortBy (fun a b => decide (a ≤ b)) (p.2.map (fun e => Hex.toHex e.1 ++ "=" ++ hexs e.2))))
     ++ ";vote=" ++ mapByHex s.votes (fun p => bool p.1 ++ ":" ++ sortedAddrs p.2)
+    ++ ";perm=[" ++ sortedAddrs s.permitted ++ "]"
 
 def digest (s : State) : String := Hex.toHex ((Sha256.sha256 (dump s).toUTF8.toList).take 6)
 
@@ -149,6 +153,7 @@ def step (s : State) (toks : List String) : State × String :=
         match op with
         | .key _ _ => (o.st, "ok")
         | .height _ => (o.st, "ok")
+        | .restart => (o.st, "ok")
         | _ => (o.st, "ok:" ++ o.ret ++ " " ++ untok (joinWith "," o.events) ++ " " ++ digest o.st)
       | .error .err => (s, "err " ++ digest s)
       | .error .panic => (s, "panic " ++ digest s)
